@@ -254,6 +254,79 @@ theorem C16_by_value (s : Spec κ ν) (v : Valid s) (hs : List (Ev κ ν))
       ++ freshChildren s (refMaps (lensOfCur cur s.iterOn) (lensOfCur cur s.zipOn)) :=
   C16_roundtrip s v hs hcov cur order g hc
 
+/-- LOOP AS LOOP BODY (for in for, zip inside iterate; likewise any macro). The body of a loop is an
+arbitrary function in every theorem above, so a nested loop is the instance in which that function is
+"run the inner loop node on what arrives": `unlist` says how a value is seen as an input of the inner
+node (a list to loop over, or a plain value), `embed` how the inner node's outputs are one value -/
+def nestedBody (inner : Spec κ ν) (unlist : ν → InVal ν) (embed : Outs κ ν → ν) : κ → List ν → ν :=
+  fun _ args =>
+    let cur := inner.bodyInputs.zip (args.map unlist)
+    embed (run inner (init inner) cur (List.range (combos inner cur).length)).1.outs
+
+/-- … and that body function IS "the reference table of the inner loop" wherever the inner inputs are
+good: every cell of the outer table holds the inner loop's nested-times-zipped table, for every
+layout of both loops and all lengths at both levels -/
+theorem C16_nested (inner : Spec κ ν) (vi : Valid inner) (unlist : ν → InVal ν) (embed : Outs κ ν → ν)
+    (o : κ) (args : List ν) (g : Good inner (inner.bodyInputs.zip (args.map unlist))) :
+    nestedBody inner unlist embed o args = embed (refOuts inner (inner.bodyInputs.zip (args.map unlist))) := by
+  unfold nestedBody
+  simp only
+  rw [(C16_table inner (init inner) _ _ vi g (by intro n hn; simpa using hn) (by simp [isHit, init])).2]
+
+/-- the outer loop over such a body: after every history, each row of the outer table holds its looped
+values and, for every output, the inner loop's reference outputs for that row's arguments -/
+theorem C16_nested_table (outer inner : Spec κ ν) (vo : Valid outer) (vi : Valid inner) (unlist : ν → InVal ν)
+    (embed : Outs κ ν → ν) (hb : outer.bodyFn = nestedBody inner unlist embed)
+    (hs : List (Cur κ ν × List Nat)) (hcov : ∀ h ∈ hs, Good outer h.1 → Covers h.2 (combos outer h.1).length)
+    (cur : Cur κ ν) (order : List Nat) (g : Good outer cur) (hc : Covers order (combos outer cur).length) :
+    (run outer (runs outer (init outer) hs) cur order).1.outs = refOuts outer cur ∧
+    ∀ vd ∈ combos outer cur, ∀ o,
+      Good inner (inner.bodyInputs.zip ((outer.bodyInputs.map (env outer cur vd)).map unlist)) →
+      refBody outer cur vd o
+        = embed (refOuts inner (inner.bodyInputs.zip ((outer.bodyInputs.map (env outer cur vd)).map unlist))) := by
+  refine ⟨(C16_history outer vo hs hcov cur order g hc).2.1, ?_⟩
+  intro vd _ o gi
+  unfold refBody
+  rw [hb]
+  exact C16_nested inner vi unlist embed o _ gi
+
+/-- A BODY COPY THAT FAILS (or never completes) at row `n`. The statement promises a row for every
+combination the body computes something for; when it does not, what must NOT happen is a table with
+that row missing or the rows shifted. Proved: the run ends with `FailedChildError`, the outputs are
+incomplete — table form: no table at all; lists form: no output column (`Outs.complete = false`) —
+whatever the other copies did and in whatever order, and nothing is cached when failures clear the cache -/
+theorem C16_body_failure (s : Spec κ ν) (st : St κ ν) (cur : Cur κ ν) (order : List Nat) (v : Valid s)
+    (g : Good s cur) (hmiss : isHit s st cur = false) (n : Nat) (hn : n < (combos s cur).length)
+    (hnot : n ∉ order) (hout : s.outputs ≠ []) :
+    (run s st cur order).2 = .failedChild ∧ (run s st cur order).1.outs.complete = false ∧
+    (s.asDf = true → (run s st cur order).1.outs = .df none) ∧
+    (s.clearOnFail = true → (run s st cur order).1.cached = none) := by
+  rw [run_fail s st cur order v g hmiss n hn hnot hout]
+  have hinc := evalOuts_incomplete s cur (refMaps (lensOfCur cur s.iterOn) (lensOfCur cur s.zipOn)) order n
+    (by rw [← length_combos]; exact hn) hnot hout
+  refine ⟨rfl, hinc, fun hdf => ?_, fun hcl => by simp [hcl]⟩
+  simp only
+  unfold evalOuts at hinc ⊢
+  simp only [hdf, ↓reduceIte, Outs.complete] at hinc ⊢
+  cases h : optAll ((enum 0 (refMaps (lensOfCur cur s.iterOn) (lensOfCur cur s.zipOn))).map
+      fun nm => rowAt s cur order nm.1 (wires cur nm.2)) with
+  | none => rfl
+  | some x => rw [h] at hinc; simp at hinc
+
+/-- … and failures do not poison later runs: with failures clearing the input cache (the library's
+policy since its C05 repair) EVERY history — runs in which any body copies fail at any iteration or
+never complete, by-value runs, round trips, snapshots; NO completeness assumption about earlier runs —
+is followed, on good inputs whose bodies all deliver, by the reference table of the current inputs and
+the children the current lengths dictate -/
+theorem C16_history_failures (s : Spec κ ν) (v : Valid s) (hcl : s.clearOnFail = true) (hout : s.outputs ≠ [])
+    (hs : List (Ev κ ν)) (cur : Cur κ ν) (order : List Nat) (g : Good s cur)
+    (hc : Covers order (combos s cur).length) :
+    let st := evs s (init s) hs
+    (run s st cur order).2 = .ok ∧ (run s st cur order).1.outs = refOuts s cur ∧
+    (run s st cur order).1.children = s.bodyInputs.map .input
+      ++ freshChildren s (refMaps (lensOfCur cur s.iterOn) (lensOfCur cur s.zipOn)) :=
+  run_good_inv s _ cur order v g hc (evs_inv_any s (init s) hs v hcl hout (inv_init s))
+
 omit [DecidableEq ν] in
 /-- no leftovers: a build keeps exactly the input nodes and adds children that are a function of
 the index maps alone -/
@@ -318,10 +391,25 @@ theorem C16_schedule_independent (s : Spec κ ν) (v : Valid s) (hdf : s.asDf = 
 
 /-- two runs of the same sub-graph under different executor assignments, signal orders and schedules
 end with the same value at the dataframe node -/
-theorem C16_schedule_pair (s : Spec κ ν) (maps : List (Dict κ)) (w : Wired s maps) (hne : maps ≠ [])
-    {cfg cfg' : Exec.Cfg} {d d' : Exec.Dag} {t t' : Exec.S} (h : Sched s maps cfg d t)
+theorem C16_schedule_pair (s : Spec κ ν) (maps : List (Dict κ)) (w : Wired s maps) (hdf : s.asDf = true)
+    (hne : maps ≠ []) {cfg cfg' : Exec.Cfg} {d d' : Exec.Dag} {t t' : Exec.S} (h : Sched s maps cfg d t)
     (h' : Sched s maps cfg' d' t') : t.out dfId = t'.out dfId :=
-  schedule_independent_pair s maps w hne h h'
+  schedule_independent_pair s maps w hdf hne h h'
+
+/-- SCHEDULE INDEPENDENCE (lists form). Same quantification; the sub-graph now ends in one column
+collector per body output and per looped input (`colSlots`). After ANY schedule the collector of every
+output holds, row by row in reference order, what the body computes for the reference combinations, the
+collector of every looped input holds that input's value row by row, every body copy ran exactly once -/
+theorem C16_schedule_independent_lists (s : Spec κ ν) (v : Valid s) (hdf : s.asDf = false) (cur : Cur κ ν)
+    (g : Good s cur) {cfg : Exec.Cfg} {d : Exec.Dag} {t : Exec.S}
+    (h : Sched s (refMaps (lensOfCur cur s.iterOn) (lensOfCur cur s.zipOn)) cfg d t) :
+    (∀ j o, s.outputs[j]? = some o →
+      evalV (sem s cur) (t.out (rowId j)) = .col (some ((combos s cur).map fun vd => refBody s cur vd o))) ∧
+    (∀ c k, (s.zipOn ++ s.iterOn)[c]? = some k →
+      evalV (sem s cur) (t.out (rowId (s.outputs.length + c)))
+        = .col (some ((combos s cur).map fun vd => env s cur vd k))) ∧
+    ∀ n, n < (combos s cur).length → t.calls (bodyId n) = 1 ∧ t.st (bodyId n) = .done :=
+  schedule_independent_lists s v hdf cur g h
 
 end
 
@@ -369,6 +457,40 @@ example : evalV (sem sp cu) (tEx.out dfId) = .table (some (refTable sp cu)) :=
 /-- … whose completion log really has row 1's body (7) before row 0's (2), and whose table is -/
 example : tEx.doneLog = [0, 5, 1, 11, 7, 8, 2, 3, 4] := by decide
 example : refTable sp cu = [[(0, 10), (9, 15)], [(0, 20), (9, 25)]] := by decide
+/-- the same loop in the LISTS form: collectors 3 (column of output `7`) and 8 (column of input `0`); the
+input column is delivered before any body completes, body 7 completes before body 2 -/
+def spL : Spec Nat Nat := { sp with asDf := false }
+def DL : Dag :=
+  forDag spL (refMaps (lensOfCur cu spL.iterOn) (lensOfCur cu spL.zipOn)) (fun i => i % 5 == 2) (fun _ => .nd)
+def actsL : List Act := [.start, .start, .deliver, .deliver, .deliver, .deliver, .deliver, .deliver, .complete 7,
+  .deliver, .complete 2, .deliver, .exit]
+def tExL : S := (runActs Cfg.repaired DL (init DL) actsL).getD (init DL)
+
+theorem reachL : runActs Cfg.repaired DL (init DL) actsL = some tExL := by
+  have hsome : (runActs Cfg.repaired DL (init DL) actsL).isSome = true := by decide
+  unfold tExL
+  cases h : runActs Cfg.repaired DL (init DL) actsL with
+  | some x => rfl
+  | none => rw [h] at hsome; cases hsome
+
+theorem schedL : Sched spL (refMaps (lensOfCur cu spL.iterOn) (lensOfCur cu spL.zipOn)) Cfg.repaired DL tExL :=
+  ⟨rfl, forDag_wf _ _ _ _, fun _ => rfl, ⟨actsL, reachL⟩, by decide⟩
+
+theorem validL : Valid spL := ⟨⟨by decide, by decide, by decide⟩, by unfold ColsDistinct; decide⟩
+theorem goodL : Good spL cu where
+  keys := rfl
+  data := by intro kv h; simp [cu] at h; rcases h with rfl | rfl <;> simp
+  lists := by
+    intro k hk
+    simp [spL, sp] at hk
+    subst hk
+    exact ⟨[10, 20], rfl, by simp⟩
+
+example : evalV (sem spL cu) (tExL.out (rowId 0)) = .col (some [15, 25]) :=
+  ((C16_schedule_independent_lists spL validL rfl cu goodL schedL).1 0 7 rfl).trans (by rfl)
+example : evalV (sem spL cu) (tExL.out (rowId 1)) = .col (some [10, 20]) :=
+  ((C16_schedule_independent_lists spL validL rfl cu goodL schedL).2.1 0 0 rfl).trans (by rfl)
+example : tExL.doneLog = [0, 5, 1, 11, 8, 7, 2, 3] := by decide
 end BridgeEx
 
 /-! ## Non-vacuity: a concrete layout (two iterated, one zipped, one broadcast input; renamed
@@ -493,6 +615,44 @@ example :
       · intro n hn; have : n < 4 := hn; simp; omega)
     _ [1, 0] (exGood true _ _ _ (by simp) (by simp) (by simp))
     (by intro n hn; have : n < 2 := hn; simp; omega)).1
+/-- `C16_body_failure` / `C16_history_failures`: body 2 of 4 fails in the first run (table form: nothing comes
+out), then the same inputs again with every body delivering -/
+example : (run { exSpec true with clearOnFail := true } (init { exSpec true with clearOnFail := true })
+    (exCur [[1], [2]] [[3]] [[4], [5]]) [0, 1, 3]).1.outs = .df none ∧
+    (run { exSpec true with clearOnFail := true } (init { exSpec true with clearOnFail := true })
+    (exCur [[1], [2]] [[3]] [[4], [5]]) [0, 1, 3]).2 = .failedChild := by decide
+example : (run { exSpec true with clearOnFail := true }
+    (evs { exSpec true with clearOnFail := true } (init { exSpec true with clearOnFail := true })
+      [.run (exCur [[1], [2]] [[3]] [[4], [5]]) [0, 1, 3]])
+    (exCur [[1], [2]] [[3]] [[4], [5]]) [2, 0, 1, 3]).2 = .ok :=
+  (C16_history_failures { exSpec true with clearOnFail := true }
+    ⟨⟨by decide, by decide, by decide⟩, by unfold ColsDistinct; decide⟩ rfl (by decide) _ _ [2, 0, 1, 3]
+    ⟨rfl, by intro kv h; simp [exCur] at h; rcases h with rfl | rfl | rfl | rfl <;> simp,
+     by
+      intro k hk
+      simp [exSpec] at hk
+      rcases hk with rfl | rfl | rfl
+      · exact ⟨_, rfl, by simp⟩
+      · exact ⟨_, rfl, by simp⟩
+      · exact ⟨_, rfl, by simp⟩⟩
+    (by intro n hn; have : n < 4 := hn; simp; omega)).1
+/-- `C16_nested`: the inner loop is the example layout; a value `[1, 2]` arriving at the inner node is seen as the
+list of values `[[1], [2]]`; the inner outputs are embedded as their number of rows -/
+def exUnlist (v : List Nat) : InVal (List Nat) := .many (v.map fun x => [x])
+def exEmbed : Outs String (List Nat) → List Nat
+  | .df (some t) => [t.length]
+  | _ => [0]
+example : nestedBody (exSpec true) exUnlist exEmbed "o" [[1, 2], [3], [4, 5], [7]] = [4] :=
+  (C16_nested (exSpec true) (exValid true) exUnlist exEmbed "o" [[1, 2], [3], [4, 5], [7]]
+    { keys := rfl
+      data := by intro kv h; simp [exSpec, exUnlist] at h; rcases h with rfl | rfl | rfl | rfl <;> simp
+      lists := by
+        intro k hk
+        simp [exSpec] at hk
+        rcases hk with rfl | rfl | rfl
+        · exact ⟨[[1], [2]], rfl, by simp⟩
+        · exact ⟨[[3]], rfl, by simp⟩
+        · exact ⟨[[4], [5]], rfl, by simp⟩ }).trans (by rfl)
 /-- `C16_midrun_copy`: a snapshot exists exactly when a run is in flight -/
 example : (midRun (exSpec true) (init (exSpec true)) (exCur [[1], [2]] [[3]] [[4], [5]])).isSome = true := by decide
 example : (midRun (exSpec true) (run (exSpec true) (init (exSpec true)) (exCur [[1]] [[3]] [[4]]) [0]).1
@@ -576,3 +736,8 @@ end PwVerif.C16
 #print axioms PwVerif.C16.C16_roundtrip_unchanged
 #print axioms PwVerif.C16.C16_midrun_copy
 #print axioms PwVerif.C16.C16_by_value
+#print axioms PwVerif.C16.C16_schedule_independent_lists
+#print axioms PwVerif.C16.C16_body_failure
+#print axioms PwVerif.C16.C16_history_failures
+#print axioms PwVerif.C16.C16_nested
+#print axioms PwVerif.C16.C16_nested_table
